@@ -495,6 +495,9 @@ func init() {
 					c.Obs("roundtrip_reference_root", 1)
 				}
 				checkRoundTrip(e, v, pl.Universe, c.Rng, big)
+				if big && len(c.Res.Violations) == 0 {
+					checkFaultedBigImport(e, v)
+				}
 				if len(c.Res.Violations) > 0 {
 					break
 				}
@@ -517,3 +520,49 @@ func init() {
 }
 
 func debugStack() []byte { return debug.Stack() }
+
+// checkFaultedBigImport: an import of more than 10000 nodes writes its nodes in background
+// batches; each of the (few) batch writes fails once: Commit must then report an error and nothing
+// of the import may be visible to a fresh tree.
+func checkFaultedBigImport(e *v1x.Env, v int64) {
+	c := e.C
+	it, err := e.T.GetImmutable(v)
+	if err != nil {
+		return
+	}
+	stream, err := exportStream(it, false)
+	if err != nil || len(stream) <= 10000 {
+		return
+	}
+	// count the batch writes of a fault-free import
+	st := seam.NewMemStore()
+	w := seam.NewWrap(st)
+	w.ArmFault(-1, seam.KBWrite)
+	t := iavl.NewMutableTree(w, 0, true, iavl.NewNopLogger())
+	if err := importStream(t, v, stream, false); err != nil {
+		return
+	}
+	n := w.Seq()
+	for i := 0; i < n; i++ {
+		st := seam.NewMemStore()
+		w := seam.NewWrap(st)
+		t := iavl.NewMutableTree(w, 0, true, iavl.NewNopLogger())
+		w.ArmFault(i, seam.KBWrite)
+		err := importStream(t, v, stream, false)
+		fired := w.Disarm()
+		if len(fired) == 0 {
+			continue
+		}
+		if err == nil {
+			e.Bad("exim|import|write-fault-reported-success", "batch write %d of %d of a %d-node import failed, yet Add/Commit reported success", i, n, len(stream))
+			return
+		}
+		f := iavl.NewMutableTree(st, 0, true, iavl.NewNopLogger())
+		lv, lerr := f.Load()
+		if lerr != nil || lv != 0 || len(f.AvailableVersions()) != 0 {
+			e.Bad("exim|import|visible-after-failed-write", "batch write %d of %d of a %d-node import failed (Commit returned %v), yet a fresh tree sees Load()=(%d,%v) versions=%v", i, n, len(stream), err, lv, lerr, f.AvailableVersions())
+			return
+		}
+		c.Obs("big_import_write_faults_checked", 1)
+	}
+}
